@@ -407,7 +407,7 @@ func fieldPtr(p PtrV, name string) (PtrV, bool) {
 			np := p
 			np.Path = joinPath(p.Path, f.Name())
 			np.Elem = f.Type()
-			return np, true
+			return reroot(np), true
 		}
 	}
 	for i := 0; i < s.NumFields(); i++ {
@@ -589,6 +589,16 @@ func (ec *EvalCtx) call(e *CExpr) Val {
 			return TV{x, t}
 		}
 	case "$addr":
+		// address of a field: $addr(l.root)
+		if e.Args[0].Kind == "sel" {
+			x := ec.eval(e.Args[0].Args[0])
+			if p, ok := ec.ptrOf(x); ok {
+				if np, ok := fieldPtr(p, e.Args[0].Name); ok {
+					return TV{st.encodePtr(np), types.NewPointer(np.Elem)}
+				}
+			}
+			fail("$addr: cannot take the address of %s", e.Args[0])
+		}
 		// address of an address-taken local of the function (e.g. the entry allocated by PriorityQueue.Enqueue)
 		if e.Args[0].Kind == "ident" {
 			lookup := func(m map[string]Val) (Val, bool) { v, ok := m["&"+e.Args[0].Name]; return v, ok }
